@@ -359,11 +359,14 @@ def main():
             got = index_listing(rr)
             wd = wd_listing(root)
             diff = [p for p in set(got) | set(wd) if got.get(p) != wd.get(p)]
-            if diff and all(p in got and p in wd and got[p][1] == wd[p][1] and {got[p][0], wd[p][0]} == {F, X} for p in diff):
-                fail("an executable-bit-only change is not noticed (status / add)", {"where": "add -A leaves the old mode in the index", "paths": sorted(p.decode() for p in diff)})
-            elif diff and all(p in got and p not in wd and any(os.path.islink(os.path.join(os.fsencode(root), b"/".join(p.split(b"/")[:k]))) for k in range(1, p.count(b"/") + 1)) for p in diff):
-                # own label (known finding): every other difference between index and directory is still a violation
-                fail("add keeps index entries that lie beyond a symlinked directory", {"where": "add -A after a tracked directory was replaced by a symlink", "paths": sorted(p.decode("latin-1") for p in diff)})
+            # the two listed findings get their own labels (alone or together); any OTHER difference is a violation
+            exec_only = [p for p in diff if p in got and p in wd and got[p][1] == wd[p][1] and {got[p][0], wd[p][0]} == {F, X}]
+            beyond = [p for p in diff if p in got and p not in wd and any(os.path.islink(os.path.join(os.fsencode(root), b"/".join(p.split(b"/")[:k]))) for k in range(1, p.count(b"/") + 1))]
+            if diff and set(diff) == set(exec_only) | set(beyond):
+                if exec_only:
+                    fail("an executable-bit-only change is not noticed (status / add)", {"where": "add -A leaves the old mode in the index", "paths": sorted(p.decode() for p in exec_only)})
+                if beyond:
+                    fail("add keeps index entries that lie beyond a symlinked directory", {"where": "add -A after a tracked directory was replaced by a symlink", "paths": sorted(p.decode("latin-1") for p in beyond)})
             elif got != wd:
                 raise AssertionError(f"after staging everything the index differs from the directory: index-only {sorted(set(got) - set(wd))}, "
                                      f"directory-only {sorted(set(wd) - set(got))}, differing {sorted(p for p in got if p in wd and got[p] != wd[p])}")
